@@ -93,7 +93,7 @@ class StubsStringGenerator:
                 module_name_info = ""
                 if package_info != package_info_camel_case:
                     module_name_info = f'@PythonModule("{package_info}")\n'
-                module_header = f"{module_name_info}package {package_info_camel_case}\n"
+                module_header = f"{module_name_info}package {_replace_if_safeds_keyword(package_info_camel_case)}\n"
 
                 # Create body text
                 if isinstance(element, Class):
@@ -137,7 +137,7 @@ class StubsStringGenerator:
         module_name_info = ""
         if package_info != package_info_camel_case:
             module_name_info = f'@PythonModule("{package_info}")\n'
-        module_header = f"{module_name_info}package {package_info_camel_case}\n"
+        module_header = f"{module_name_info}package {_replace_if_safeds_keyword(package_info_camel_case)}\n"
 
         # Create docstring
         docstring = self._create_sds_docstring_description(module.docstring, "")
